@@ -51,3 +51,8 @@ Print Assumptions c13_flat_map_non_future.
 Print Assumptions c13_calls_own_case.
 Print Assumptions c13_chains_compose.
 Print Assumptions c13_chain_calls_at_most_once_each.
+Print Assumptions c13_failure_uses_error_fn.
+Print Assumptions c13_identity_defaults.
+Print Assumptions c13_fn_raises.
+Print Assumptions c13_error_fn_raises.
+Print Assumptions c13_flat_map_flattens.
